@@ -14,6 +14,7 @@ open Backend Spsc
 structure ClosedR (P : BSt → Prop) : Prop where
   siteCnt : ∀ s x, P s → P { s with siteCnt := x }
   emitInj : ∀ s a b c d, P s → P (s.emit (.inj a b c d))
+  note : ∀ s, P s → P (s.emit (.notify "n:fmterr"))
   clock : ∀ s n, P s → P { s with now := n }
   gone : ∀ s, P s → P { s with backendGone := true }
   lastFlush : ∀ s n, P s → P { s with lastFlush := n }
@@ -70,8 +71,12 @@ theorem readQueue_okR {inj : BSt → Nat → BSt} (hi : InjOK P inj) (tsNow : Op
       · rename_i st rest hq
         split
         · exact hfin
-        · have h3 : P (inj (readOneSt s i st rest) 3) :=
-            (hi _ 3 (hc.readOne s i st rest hs (by simpa using hr) hq)).1
+        · have h3 : P (inj (fmtNote (readOneSt s i st rest) st) 3) :=
+            (hi _ 3 (by
+              unfold fmtNote
+              split
+              · exact hc.note _ (hc.readOne s i st rest hs (by simpa using hr) hq)
+              · exact hc.readOne s i st rest hs (by simpa using hr) hq)).1
           split
           · exact readQueue_okR hi tsNow i fuel _ _ h3
           · exact hc.commit _ _ h3
@@ -242,6 +247,7 @@ def PR (pend : List Nat) (x : BSt) : Prop := FInv x ∧ RP pend x
 theorem PR_closedR (pend : List Nat) : ClosedR (PR pend) where
   siteCnt := fun s x h => ⟨FInv_closed.siteCnt s x h.1, RP_of_fields rfl rfl h.2⟩
   emitInj := fun s a b c d h => ⟨FInv_closed.emitInj s a b c d h.1, RP_of_fields rfl rfl h.2⟩
+  note := fun s h => ⟨FInv_closed.note s h.1, RP_of_fields rfl rfl h.2⟩
   clock := fun s n h => ⟨FInv_closed.clock s n h.1, RP_of_fields rfl rfl h.2⟩
   gone := fun s h => ⟨FInv_closed.gone s h.1, RP_of_fields rfl rfl h.2⟩
   lastFlush := fun s n h => ⟨FInv_closed.lastFlush s n h.1, RP_of_fields rfl rfl h.2⟩
@@ -473,6 +479,7 @@ theorem FD_closed : Closed FD where
   front := fun s f h => ⟨FInv_closed.front s f h.1, DT_front s f h.1.2 h.2⟩
   siteCnt := fun s x h => ⟨FInv_closed.siteCnt s x h.1, DT_of_fields rfl rfl h.2⟩
   emitInj := fun s a b c d h => ⟨FInv_closed.emitInj s a b c d h.1, DT_emit_plain h.2 _ (fun _ => rfl)⟩
+  note := fun s h => ⟨FInv_closed.note s h.1, DT_emit_plain h.2 _ (fun _ => rfl)⟩
   clock := fun s n h => ⟨FInv_closed.clock s n h.1, DT_of_fields rfl rfl h.2⟩
   gone := fun s h => ⟨FInv_closed.gone s h.1, DT_of_fields rfl rfl h.2⟩
   lastFlush := fun s n h => ⟨FInv_closed.lastFlush s n h.1, DT_of_fields rfl rfl h.2⟩
